@@ -71,8 +71,8 @@ func runC16(cfg *vh.Config) error {
 
 	// ------------------------------------------------------------ stream 1+2: generated packages, plain and mutated
 	rp := cfg.R.Fork("packages")
-	nPkg := cfg.Scale(90, 1500)
-	nAwk := cfg.Scale(12, 150)
+	nPkg := cfg.Scale(70, 1500)
+	nAwk := cfg.Scale(10, 150)
 	type pk struct {
 		p   *gPackage
 		mut *Mutation
@@ -85,7 +85,7 @@ func runC16(cfg *vh.Config) error {
 		pks = append(pks, pk{p: p})
 		jobs = append(jobs, &Job{ID: len(jobs), Kind: "j5s", Pkg: p.Pkg, Files: map[string]string{strings.ReplaceAll(p.Pkg, ".", "/") + "/a.j5s": p.text()}})
 	}
-	nMut := cfg.Scale(60, 600)
+	nMut := cfg.Scale(45, 600)
 	for i := 0; i < nMut; i++ {
 		p := genPackage(rp, false)
 		sv := p.Services[0]
@@ -213,7 +213,7 @@ func runC16(cfg *vh.Config) error {
 
 	// ------------------------------------------------------------ stream 4: buildMethod on hand-built descriptors
 	rm := cfg.R.Fork("method")
-	nMeth := cfg.Scale(400, 6000)
+	nMeth := cfg.Scale(300, 6000)
 	for i := 0; i < nMeth; i++ {
 		md := genMethDesc(rm)
 		r := handle(&Job{Kind: "method", Meth: &md}, nil)
@@ -238,7 +238,7 @@ func runC16(cfg *vh.Config) error {
 
 	// ------------------------------------------------------------ stream 5: hand-built source APIs (client stage)
 	ra := cfg.R.Fork("api")
-	nAPI := cfg.Scale(220, 3000)
+	nAPI := cfg.Scale(170, 3000)
 	var apiJobs []*Job
 	var hands []*HandAPI
 	for i := 0; i < nAPI; i++ {
@@ -262,6 +262,7 @@ func runC16(cfg *vh.Config) error {
 					Clause: "no crash, including for recursive schemas", Input: h, Got: st})
 			}
 		}
+		oracleHandAPI(res, caseNo, h, r)
 		im := &Img{Pkg: h.Pkg, Schemas: h.Schemas}
 		ms := make([]string, len(h.Methods))
 		for k, m := range h.Methods {
@@ -351,6 +352,44 @@ func oracleClient(res *vh.Result, caseNo int, stream, prefix string, p *gPackage
 		}
 		if d.List != m.HasList {
 			res.Fail(vh.Failure{Case: caseNo, Stream: stream, Sig: prefix + " -> list request presence differs", Clause: "list methods", Input: input, Got: d.Name})
+		}
+	}
+	// the same in the OpenAPI document: path parameters are exactly the names in the path template,
+	// the other request properties are query parameters (GET) or body properties
+	ops := map[string]SwaggerOp{}
+	for _, op := range r.Swagger {
+		ops[op.OpID] = op
+	}
+	for _, d := range decl {
+		op, ok := ops["/"+p.Pkg+"."+d.Service+"/"+d.Name]
+		if !ok {
+			res.Fail(vh.Failure{Case: caseNo, Stream: stream, Sig: prefix + " -> declared method missing from the OpenAPI document", Clause: "an OpenAPI document", Input: input, Got: d.Service + "/" + d.Name})
+			continue
+		}
+		var tmpl []string
+		for _, seg := range strings.Split(op.Path, "/") {
+			if strings.HasPrefix(seg, ":") {
+				tmpl = append(tmpl, seg[1:])
+			}
+		}
+		sortedEq := func(a, b []string) bool {
+			x, y := append([]string{}, a...), append([]string{}, b...)
+			sort.Strings(x)
+			sort.Strings(y)
+			return eqStrs(x, y)
+		}
+		if op.Path != d.Path || !sortedEq(op.PathP, tmpl) || !sortedEq(op.PathP, d.PathP) {
+			res.Fail(vh.Failure{Case: caseNo, Stream: stream, Sig: prefix + " -> OpenAPI path parameters are not exactly the names in the path template", Clause: "each path parameter names a request property; declared path", Input: input,
+				Got: fmt.Sprintf("%s: path %s in:path %v", d.Name, op.Path, op.PathP), Want: fmt.Sprintf("path %s params %v", d.Path, d.PathP)})
+		}
+		if d.Verb == 1 {
+			if op.HasBody || !sortedEq(op.Query, d.Rest) {
+				res.Fail(vh.Failure{Case: caseNo, Stream: stream, Sig: prefix + " -> OpenAPI GET operation: query parameters are not the remaining request properties", Clause: "request properties are split into path/query/body as the verb dictates", Input: input,
+					Got: fmt.Sprintf("%s: body=%v query=%v", d.Name, op.HasBody, op.Query), Want: d.Rest})
+			}
+		} else if !op.HasBody || len(op.Query) != 0 || !sortedEq(op.Body, d.Rest) {
+			res.Fail(vh.Failure{Case: caseNo, Stream: stream, Sig: prefix + " -> OpenAPI operation with body: body properties are not the remaining request properties", Clause: "request properties are split into path/query/body as the verb dictates", Input: input,
+				Got: fmt.Sprintf("%s: body=%v %v query=%v", d.Name, op.HasBody, op.Body, op.Query), Want: d.Rest})
 		}
 	}
 	for k, m := range got {
@@ -467,6 +506,9 @@ func genHandAPI(r *vh.Rand) *HandAPI {
 		return FTy{Alt: vh.Pick(r, scal)}
 	}
 	names := []string{"a", "b", "c", "d", "e", "f"}
+	if r.Chance(50) { // names related by prefix / extension, as are the path segments below
+		names = []string{"ab", "a", "abc", "b", "ba", "c"}
+	}
 	props := func(k int) []Prop {
 		var out []Prop
 		for i := 0; i < k && i < len(names); i++ {
@@ -517,7 +559,7 @@ func genHandAPI(r *vh.Rand) *HandAPI {
 			}
 			h.Schemas = append(h.Schemas, resp)
 		}
-		parts := []string{"", "x", "y1", ":a", ":b", ":c", ":zz", ":", "::a", "a:b", ":a:b", ":query", "é"}
+		parts := []string{"", "x", "y1", ":a", ":b", ":c", ":zz", ":", "::a", "a:b", ":a:b", ":query", "é", ":ab", ":abc", ":ba", "ab", ":A"}
 		np := r.Range(0, 4)
 		var segs []string
 		for i := 0; i < np; i++ {
@@ -533,4 +575,74 @@ func genHandAPI(r *vh.Rand) *HandAPI {
 		h.Schemas = append(h.Schemas, Schema{Pkg: "j5.list.v1", Name: "QueryRequest", Kind: "object"})
 	}
 	return h
+}
+
+// oracleHandAPI states the request split on a hand-built source API, independently of the model:
+// path parameters are exactly the request properties whose name is a ":name" segment of the path.
+func oracleHandAPI(res *vh.Result, caseNo int, h *HandAPI, r *Result) {
+	if r.status("client") != "ok" {
+		return
+	}
+	props := map[string][]string{}
+	for _, s := range h.Schemas {
+		if s.Pkg == h.Pkg+".service" {
+			var names []string
+			for _, p := range s.Props {
+				names = append(names, p.JSON)
+			}
+			props[s.Name] = names
+		}
+	}
+	got := map[string]MethodObs{}
+	for _, m := range r.Methods {
+		got[m.Name] = m
+	}
+	for _, hm := range h.Methods {
+		m, ok := got[hm.Name]
+		if !ok {
+			res.Fail(vh.Failure{Case: caseNo, Stream: "api", Sig: "C16 source API -> method missing from client API", Clause: "the client API lists exactly the declared methods", Input: h, Got: hm.Name})
+			continue
+		}
+		seg := map[string]bool{}
+		for _, s := range strings.Split(hm.Path, "/") {
+			if strings.HasPrefix(s, ":") {
+				seg[s[1:]] = true
+			}
+		}
+		var wantPath, rest []string
+		for _, n := range props[hm.Req] {
+			if seg[n] {
+				wantPath = append(wantPath, n)
+			} else {
+				rest = append(rest, n)
+			}
+		}
+		if !eqStrs(m.PathP, wantPath) {
+			res.Fail(vh.Failure{Case: caseNo, Stream: "api", Sig: "C16 source API -> path parameters are not exactly the request properties named by a :segment of the path", Clause: "each path parameter names a request property; split by verb", Input: h,
+				Got: fmt.Sprintf("%s %s: %v", hm.Name, hm.Path, m.PathP), Want: wantPath})
+		}
+		if hm.Verb == 1 {
+			if m.HasBody || !eqStrs(m.Query, rest) {
+				res.Fail(vh.Failure{Case: caseNo, Stream: "api", Sig: "C16 source API -> GET request split wrong", Clause: "split by verb", Input: h, Got: fmt.Sprintf("%s %s: body=%v query=%v", hm.Name, hm.Path, m.HasBody, m.Query), Want: rest})
+			}
+		} else if !m.HasBody || len(m.Query) != 0 || !eqStrs(m.Body, rest) {
+			res.Fail(vh.Failure{Case: caseNo, Stream: "api", Sig: "C16 source API -> request with body split wrong", Clause: "split by verb", Input: h, Got: fmt.Sprintf("%s %s: body=%v %v query=%v", hm.Name, hm.Path, m.HasBody, m.Body, m.Query), Want: rest})
+		}
+	}
+	// and in the OpenAPI document
+	for _, op := range r.Swagger {
+		var tmpl []string
+		for _, s := range strings.Split(op.Path, "/") {
+			if strings.HasPrefix(s, ":") {
+				tmpl = append(tmpl, s[1:])
+			}
+		}
+		in := setOf(tmpl)
+		for _, pp := range op.PathP {
+			if !in[pp] {
+				res.Fail(vh.Failure{Case: caseNo, Stream: "api", Sig: "C16 source API -> OpenAPI declares an in:path parameter that is not in the path template", Clause: "each path parameter names a request property", Input: h,
+					Got: fmt.Sprintf("%s %s: in:path %v", op.OpID, op.Path, op.PathP)})
+			}
+		}
+	}
 }
